@@ -7,22 +7,43 @@
 (* -> measurements with a generation counter), per measurement instance    *)
 (* the live series (the series index) and the live rows, split over the    *)
 (* abstract storage layers memory / flushed / out-of-order / compacted.    *)
+(* A row belongs to a SHARD GROUP (GroupOf its time: the groups are weeks   *)
+(* apart) and through it to an INDEX GROUP (IdxOf: one index group may      *)
+(* serve several shard groups).                                            *)
 (*                                                                         *)
 (* Actions (code sites):                                                   *)
 (*   Write            = POST /write  (coordinator PointsWriter -> shard.WriteRows,            *)
 (*                      meta.Data.CreateMeasurement gives a re-created measurement a new     *)
-(*                      version suffix)                                                      *)
+(*                      version suffix; DBPTInfo.NewShard / NewMergeSetIndex create the       *)
+(*                      shard and the index group of a time range on first use)              *)
+(*   WriteRefused     = POST /write to a measurement whose database / policy is gone or is   *)
+(*                      being deleted (not acknowledged, nothing may change)                 *)
 (*   Flush            = /debug/ctrl?mod=flush  (EngineImpl.ForceFlush)                       *)
 (*   Compact          = compaction / out-of-order merge (engine/compact.go Compactor.run)    *)
-(*   RestartClean/Kill= SIGTERM / SIGKILL + start (WAL replay, index and delete-set reload)  *)
+(*   RestartClean/Kill= SIGTERM / SIGKILL + start (WAL replay, index and delete-set reload:  *)
+(*                      DBPTInfo.OpenIndexes -> SetDelMergeSetForEachMergeSet)               *)
 (*   DropSeries       = coordinator/drop_series_executor.go -> handler DropSeries.Process    *)
-(*                      -> MergeSetIndex.WriteDeleteTsids                                    *)
+(*                      -> storeTsids -> MergeSetIndex.WriteDeleteTsids                      *)
 (*   DropSeriesNoFrom = the same statement without FROM (rejected: "there must be and can    *)
 (*                      only be one table"; not acknowledged, so nothing may change)         *)
+(*   DropSeriesTime   = DROP SERIES FROM m WHERE <tags> AND time < t: InfluxQL has no time-   *)
+(*                      bounded DROP SERIES (the design refuses it, nothing may change)      *)
+(*   Unsupported      = DELETE FROM m WHERE ... / DROP SHARD n: parsed, then answered        *)
+(*                      "unsupported command" by statement_executor.go; nothing may change   *)
 (*   DropMeasurement  = meta.Data.MarkMeasurementDelete -> shard.DropMeasurement ->          *)
 (*                      MmsTables.DropMeasurement -> meta.Data.DropMeasurement               *)
 (*   DropRP / CreateRP, DropDatabase / CreateDatabase = meta.Data.MarkRetentionPolicyDelete, *)
 (*                      MarkDatabaseDelete, ... (statement_executor.go)                      *)
+(*   With Phased the wholesale drops are the three steps of the code:                        *)
+(*     Drop*Mark   = the statement: mark-deleted in the catalogue, acknowledged              *)
+(*     Drop*Store  = app/ts-meta/meta/store.go checkDelete -> NetStore.Delete* : the stores   *)
+(*                   delete the data                                                          *)
+(*     Drop*Finish = deleteRpMetadata / deleteDatabaseMetadata / Data.DropMeasurement: the    *)
+(*                   catalogue entry is removed, the name is free again                       *)
+(*   and writes / creates interleave with them: CreateRPBusy, CreateDatabaseBusy (the name   *)
+(*   is still taken by the object being deleted: refused), Write to a measurement being       *)
+(*   deleted (re-created at once under a new version), WriteRefused, and the `race` rows of   *)
+(*   a Drop*Mark (writes in flight while the statement runs).                                 *)
 (*                                                                         *)
 (* Two worlds evolve side by side under the same actions:                  *)
 (*   wd = the DESIGN (with the mutation seeds of Dev switched in): the     *)
@@ -30,15 +51,14 @@
 (*   wi = the AS-IMPLEMENTED behaviour of the known openGemini defects     *)
 (*        (ImplDev): the replay attributes a divergence to a finding only  *)
 (*        if the real answer equals what wi predicts.                      *)
-(* The READ-SHAPE operators (Plain, TagFilter, FieldFilter, GroupByTag,    *)
-(* GroupByTime, Aggregate, ShowSeries, ShowTagKeys, ShowTagValues) are     *)
-(* defined once over a row set; every shape reads the live rows only.      *)
+(* The READ-SHAPE operators are defined once over a row set / series set;  *)
+(* every shape reads the live rows only.                                   *)
 (***************************************************************************)
 EXTENDS Integers, Sequences, FiniteSets, TLC, SequencesExt, FiniteSetsExt
 
 CONSTANTS Hosts,       \* tag values of tag key "host"   (strings)
           Regions,     \* tag values of tag key "region" (strings)
-          Times,       \* abstract timestamps (naturals >= 1)
+          Times,       \* abstract timestamps: 10 * shard group + position (1..8) inside the group
           MaxBatch,    \* rows per write
           Depth,       \* actions per behaviour
           MaxWrites,   \* bound on Write actions (exhaustive mode)
@@ -62,6 +82,9 @@ VARIABLES wd,    \* design world
 vars == <<wd, wi, loc, dropped, nv, nw, gk, seg, hist>>
 view == <<wd, wi, loc, dropped, nv, nw, gk, seg>>
 
+\* switches a configuration may override (definitions, so that older configurations need not name them)
+Phased == FALSE          \* TRUE: wholesale drops are the three steps Mark / Store / Finish
+
 -----------------------------------------------------------------------------
 \* catalogue universe
 RPs   == {"rp1", "rp2"}
@@ -77,8 +100,21 @@ Key    == Series \X Times
 \* a row: series, time, value, generation of the measurement it was written to
 RowOf(s, t, v, g) == [s |-> s, t |-> t, v |-> v, g |-> g]
 
+\* shard groups and index groups
+GroupOf(t) == t \div 10
+Groups     == {GroupOf(t) : t \in Times}
+IdxOf(g)   == g                         \* a configuration may let several shard groups share an index group
+XOf(r)     == IdxOf(GroupOf(r.t))       \* index group of a row
+IdxIds     == {IdxOf(g) : g \in Groups}
+SX(r)      == [s |-> r.s, x |-> XOf(r)] \* the series id of a row: one per series key and index group
+
 NoRows == [i \in Insts |-> {}]
 EmptyLoc == [i \in Insts |-> [mem |-> {}, fl |-> {}, oo |-> {}, co |-> {}]]
+NoPhase == [i \in Insts |-> "none"]
+\* pre = what the deleted-series set looked like before the DROP SERIES that was acknowledged LAST (on = the action before
+\* this state was such a statement): as implemented the record of the statement is not on disk yet
+NoPre == [on |-> FALSE, rows |-> NoRows, idx |-> NoRows, ghm |-> NoRows, ghq |-> NoRows, zomb |-> NoRows,
+          cause |-> NoRows, dead |-> NoRows]
 
 \* A world.  ver = version suffix of the measurement inside the current incarnation of its
 \* retention policy (name_0000, name_0001, ...; -1 = never created), gen = generation counter of the
@@ -87,18 +123,32 @@ EmptyLoc == [i \in Insts |-> [mem |-> {}, fl |-> {}, oo |-> {}, co |-> {}]]
 \* index of the policy hold entries of measurement "n" (they sort after those of "m"); wal = rows of series
 \* dropped while still in the memtable, i.e. still in the write-ahead log (a restart replays them);
 \* dead = [ver, s]: index entries of the series of a dropped measurement incarnation (not purged);
-\* cause = why the as-implemented rows of the instance differ from the design's ("cross", "wal").
+\* cause = why the as-implemented rows of the instance differ from the design's ("cross", "wal", "unwired",
+\* "timedrop").
+\* Index groups: ig = index groups of the policy that exist (created by the first write into their time
+\* range), delidx = the policy has its deleted-series set in memory, wired = index groups whose searches
+\* and write path consult that set, zomb = series ids that ARE in the deleted set while their index
+\* group does not consult it, zmem = rows written to such an id that are still in the write-ahead log only.
+\* pre: see NoPre.
+\* Two-phase drops: dbph / rpph / mph = phase of the object being deleted in the background under that
+\* name ("none", "marked", "purged"); ackc = a CREATE RETENTION POLICY was acknowledged for the name.
 InitWorld == [db |-> TRUE, rps |-> RPs,
               ex  |-> [i \in Insts |-> FALSE],
               gen |-> [i \in Insts |-> 0],
               ver |-> [i \in Insts |-> -1],
               rows |-> NoRows, idx |-> NoRows, ghm |-> NoRows, ghq |-> NoRows,
               wal |-> NoRows, dead |-> NoRows, cause |-> NoRows,
-              nidx |-> [r \in RPs |-> "no"]]
+              nidx |-> [r \in RPs |-> "no"],
+              ig |-> [r \in RPs |-> {}], wired |-> [r \in RPs |-> {}], delidx |-> [r \in RPs |-> FALSE],
+              zomb |-> NoRows, zmem |-> NoRows,
+              dbph |-> "none", rpph |-> [r \in RPs |-> "none"], mph |-> NoPhase,
+              ackc |-> [r \in RPs |-> FALSE],
+              pre |-> NoPre]
 
 Usable(w, i) == w.db /\ RpOf(i) \in w.rps
-Live(w, i)   == IF Usable(w, i) /\ w.ex[i] THEN w.rows[i] ELSE {}
-LiveIdx(w, i)== IF Usable(w, i) /\ w.ex[i] THEN w.idx[i] ELSE {}
+Exists(w, i) == Usable(w, i) /\ w.ex[i]
+Live(w, i)   == IF Exists(w, i) THEN w.rows[i] ELSE {}
+LiveIdx(w, i)== IF Exists(w, i) THEN w.idx[i] ELSE {}
 
 -----------------------------------------------------------------------------
 \* tag predicates of DROP SERIES:  [k, t1, v1, t2, v2]; v1, v2 are sets of tag values
@@ -149,10 +199,48 @@ RECURSIVE SumV(_)
 SumV(R)             == IF R = {} THEN 0 ELSE LET r == CHOOSE x \in R : TRUE IN r.v + SumV(R \ {r})
 CountBy(R)          == [h \in {r.s.host : r \in R} |-> Cardinality({r \in R : r.s.host = h})]
 SumBy(R)            == [h \in {r.s.host : r \in R} |-> SumV({r \in R : r.s.host = h})]
+\* --- further routes to the same logical contents -------------------------------------------------
+\* the same rows through other machinery (the replay reads them and compares with Plain; ORDER BY time DESC must
+\* also arrive in descending time order, a chunked answer is the concatenation of its chunks, SELECT ... INTO
+\* copies exactly the rows its source returns, PromQL range selectors return the raw samples)
+OrderDesc(R)        == Plain(R)          \* SELECT * ... ORDER BY time DESC
+Chunked(R)          == Plain(R)          \* chunked=true&chunk_size=n
+IntoSource(R)       == Plain(R)          \* SELECT * INTO copy FROM ... GROUP BY * ; SELECT * FROM copy
+SubPlain(R)         == Plain(R)          \* SELECT * FROM (SELECT value FROM ... GROUP BY *)
+PromSamples(R)      == Plain(R)          \* /api/v1/query?query=m[w]  (one window per shard group)
+\* LIMIT / OFFSET and ORDER BY time DESC LIMIT on ONE series (host = 'a' AND region = 'x'; how LIMIT cuts through several
+\* series is the subject of C08): its newest row (ORDER BY time DESC LIMIT 1), its second-oldest row (LIMIT 1 OFFSET 1)
+OfProbe(R)          == {r \in R : r.s.host = "a" /\ r.s.region = "x"}
+NewestOfProbe(R)    == {r \in OfProbe(R) : \A r2 \in OfProbe(R) : r2.t <= r.t}
+SecondOfProbe(R)    == {r \in OfProbe(R) : Cardinality({r2 \in OfProbe(R) : r2.t < r.t}) = 1}
+\* the first series in tag order (GROUP BY * SLIMIT 1)
+HRank(h) == CASE h = "a" -> 1 [] h = "b" -> 2 [] h = "c" -> 3 [] OTHER -> 4
+RRank(x) == CASE x = "x" -> 1 [] x = "y" -> 2 [] OTHER -> 3
+SRank(s) == 10 * HRank(s.host) + RRank(s.region)
+FirstSeries(R)      == {r \in R : \A r2 \in R : SRank(r.s) <= SRank(r2.s)}
+\* GROUP BY time with fill(): one window per shard group (positions 1..8 of the group), buckets of two units
+WinBuckets(g)       == {10 * g + k : k \in {1, 3, 5, 7}}
+InWin(R, g)         == {r \in R : GroupOf(r.t) = g}
+InBucket(R, b)      == {r \in R : Bucket(r.t) = b}
+FillZero(R)         == UNION {IF InWin(R, g) = {} THEN {}
+                                ELSE {[b |-> b, c |-> Cardinality(InBucket(R, b))] : b \in WinBuckets(g)} : g \in Groups}
+PrevSum(R, g, b)    == LET bs == {x \in WinBuckets(g) : x <= b /\ InBucket(R, x) # {}}
+                       IN IF bs = {} THEN -1 ELSE SumV(InBucket(R, Max(bs)))     \* -1: no value yet (null)
+FillPrevious(R)     == UNION {IF InWin(R, g) = {} THEN {}
+                                ELSE {[b |-> b, c |-> PrevSum(R, g, b)] : b \in WinBuckets(g)} : g \in Groups}
+\* sub-queries: an aggregate over a filtered inner selection, an aggregate over a grouped inner selection
+SubCount(R)         == Cardinality(TagNe(R))
+SubMaxBy(R)         == [h \in {r.s.host : r \in R} |-> Max({r.v : r \in {x \in R : x.s.host = h}})]
 \* listings: over the live series of the named measurement instance
 ShowSeries(S)       == S
 ShowTagKeys(S)      == IF S = {} THEN {} ELSE {"host", "region"}
 ShowTagValues(S, k) == {s[k] : s \in S}
+SeriesCardinality(S)== Cardinality(S)                     \* SHOW SERIES EXACT CARDINALITY FROM rp.m
+PromSeries(S)       == ShowSeries(S)                      \* /api/v1/series?match[]=m
+PromLabelValues(S,k)== ShowTagValues(S, k)                \* /api/v1/label/host/values?match[]=m
+\* catalogue listings: a measurement is listed, with its field, as long as it exists
+ShowFieldKeys(e)    == IF e THEN {"value"} ELSE {}        \* SHOW FIELD KEYS FROM rp.m
+ShowMeasurements(w) == {NameOf(i) : i \in {j \in Insts : Exists(w, j)}}   \* SHOW MEASUREMENTS [WITH MEASUREMENT =~ ...]
 
 \* the design's expectation: every shape is a projection of the same live row set
 SeriesOfRows(R) == {r.s : r \in R}
@@ -165,16 +253,30 @@ WWrite(w, i, keys, v0, dv, oldrows) ==
   LET new  == ~w.ex[i]
       g    == IF new THEN w.gen[i] + 1 ELSE w.gen[i]
       ks   == SetToSeq(keys)
-      nr   == {RowOf(ks[j][1], ks[j][2], v0 + j - 1, g) : j \in 1..Len(ks)}
+      nr0  == {RowOf(ks[j][1], ks[j][2], v0 + j - 1, g) : j \in 1..Len(ks)}
       keep == {r \in w.rows[i] : <<r.s, r.t>> \notin keys}
       \* mutation seed: a re-created measurement reuses the old version suffix, the old files are visible again
-      back == IF new /\ "recreate_reuses_version" \in dv THEN oldrows ELSE {}
+      \* (reuse_version_after_finish: only once the background deletion has removed the old catalogue entry)
+      back == IF new /\ ("recreate_reuses_version" \in dv \/ ("reuse_version_after_finish" \in dv /\ w.mph[i] = "none"))
+                THEN oldrows ELSE {}
+      \* mutation seed: a write to a series key that DROP SERIES removed lands on the removed series id and is never seen
+      lost == IF "write_dropped_series_lost" \in dv /\ ~new THEN {r \in nr0 : r.s \notin w.idx[i] /\ SX(r) \in w.zomb[i]} ELSE {}
+      nr   == nr0 \ lost
+      rp   == RpOf(i)
+      xs   == {IdxOf(GroupOf(k[2])) : k \in keys}
+      \* as implemented: rows written to a series id of the deleted set through an index group that does not consult the set
+      zr   == IF "late_index_unwired" \in dv /\ ~new THEN {r \in nr : SX(r) \in w.zomb[i]} ELSE {}
   IN [w EXCEPT !.ex[i] = TRUE, !.gen[i] = g,
                !.ver[i] = IF new THEN @ + 1 ELSE @,
                !.rows[i] = keep \cup nr \cup back,
-               !.idx[i] = @ \cup {k[1] : k \in keys} \cup {r.s : r \in back},
+               !.idx[i] = @ \cup {r.s : r \in nr} \cup {r.s : r \in back},
                !.wal[i] = {r \in @ : <<r.s, r.t>> \notin keys},
-               !.nidx[RpOf(i)] = IF NameOf(i) = "n" THEN "yes" ELSE @]
+               !.nidx[rp] = IF NameOf(i) = "n" THEN "yes" ELSE @,
+               \* DBPTInfo.NewMergeSetIndex: a new index group is NOT handed the policy's deleted set (the design: it is)
+               !.ig[rp] = @ \cup xs,
+               !.wired[rp] = IF "late_index_unwired" \in dv THEN @ ELSE @ \cup xs,
+               !.zomb[i] = IF new THEN {} ELSE @,
+               !.zmem[i] = IF new THEN {} ELSE {r \in @ : <<r.s, r.t>> \notin keys} \cup zr]
 
 \* instances hit by DROP SERIES FROM i: the named one; as implemented also every other policy's
 \* measurement with the same versioned name (the store request carries no policy)
@@ -183,30 +285,54 @@ DropTargets(w, i, dv) ==
               THEN {j \in Insts : NameOf(j) = NameOf(i) /\ Usable(w, j) /\ w.ex[j] /\ w.ver[j] = w.ver[i]}
               ELSE {})
 
-WDropSeries(w, i, p, dv, memrows) ==
+\* tag = additional cause recorded for every instance that loses rows (as-implemented world)
+WDropSeries(w, i, p, dv, memrows, tag) ==
   LET T == DropTargets(w, i, dv)
       D(j)    == {s \in w.idx[j] : Sat(p, s)}
-      gone(j) == {r \in w.rows[j] : r.s \in D(j)}
+      unw     == "late_index_unwired" \in dv
+      \* storeTsids: the first DROP SERIES that finds series in a policy creates the policy's deleted set and hands it to
+      \* the index groups that exist at that moment
+      hit     == {RpOf(j) : j \in {t \in T : D(t) # {}}}
+      del2    == [r \in RPs |-> w.delidx[r] \/ r \in hit]
+      wired2  == [r \in RPs |-> IF r \in hit /\ ~w.delidx[r] THEN w.ig[r] ELSE w.wired[r]]
+      named(j)== {r \in w.rows[j] : r.s \in D(j)}
+      \* as implemented the rows reached through an index group that does not consult the deleted set stay visible
+      stay(j) == IF unw THEN {r \in named(j) : XOf(r) \notin wired2[RpOf(j)]} ELSE {}
+      gone(j) == named(j) \ stay(j)
       \* mutation seed: the drop forgets the rows still in the memtable
       rm(j)   == IF "drop_forgets_memtable" \in dv THEN gone(j) \ memrows[j] ELSE gone(j)
       \* as implemented the index entries of a dropped incarnation with the same versioned name are reached too
       DT      == IF "cross_rp_drop" \in dv THEN {j \in Insts : NameOf(j) = NameOf(i) /\ Usable(w, j)} ELSE {}
+      \* DropSeries.Process flushes every shard through whose index group it found series
+      flushed == UNION {{<<RpOf(j), XOf(r)>> : r \in named(j)} : j \in T}
+      \* series ids now in the deleted set although readable (as implemented); for the mutation seed
+      \* write_dropped_series_lost the design world remembers every id it removed
+      removed(j) == IF unw THEN {SX(r) : r \in stay(j)}
+                    ELSE IF "write_dropped_series_lost" \in dv THEN {SX(r) : r \in named(j)} ELSE {}
   IN [w EXCEPT !.rows = [j \in Insts |-> IF j \in T THEN w.rows[j] \ rm(j) ELSE w.rows[j]],
                \* mutation seed: the tag listing keeps the dropped values
                !.idx  = [j \in Insts |-> IF j \in T /\ "taglisting_keeps_dropped" \notin dv
-                                           THEN w.idx[j] \ D(j) ELSE w.idx[j]],
+                                           THEN w.idx[j] \ {s \in D(j) : \A r \in stay(j) : r.s # s} ELSE w.idx[j]],
                !.ghm  = [j \in Insts |-> IF j \in T THEN w.ghm[j] \cup gone(j) ELSE w.ghm[j]],
                !.wal  = [j \in Insts |-> IF j \in T /\ "wal_replay_resurrects" \in dv
                                            THEN w.wal[j] \cup (gone(j) \cap memrows[j]) ELSE w.wal[j]],
                !.dead = [j \in Insts |-> IF j \in DT THEN {d \in w.dead[j] : ~(d.ver = w.ver[i] /\ Sat(p, d.s))} ELSE w.dead[j]],
-               !.cause = [j \in Insts |-> IF j \in T \ {i} /\ gone(j) # {} THEN w.cause[j] \cup {"cross"} ELSE w.cause[j]]]
+               !.cause = [j \in Insts |-> (IF j \in T \ {i} /\ gone(j) # {} THEN w.cause[j] \cup {"cross"} ELSE w.cause[j])
+                                           \cup (IF j \in T /\ stay(j) # {} THEN {"unwired"} ELSE {})
+                                           \cup (IF j \in T /\ tag # "" /\ named(j) # {} THEN {tag} ELSE {})],
+               !.delidx = del2, !.wired = wired2,
+               !.zomb = [j \in Insts |-> IF j \in T THEN w.zomb[j] \cup removed(j) ELSE w.zomb[j]],
+               !.zmem = [j \in Insts |-> {r \in w.zmem[j] : <<RpOf(j), XOf(r)>> \notin flushed}]]
 
-WDropMeasurement(w, i, dv, memrows) ==
+\* flushNow: shard.DropMeasurement flushes the shards of the policy (with Phased this happens in the Store step)
+WDropMeasurement(w, i, dv, memrows, flushNow) ==
   LET keep == IF "drop_forgets_memtable" \in dv THEN w.rows[i] \cap memrows[i] ELSE {}
   IN [w EXCEPT !.ex[i] = FALSE, !.rows[i] = keep, !.idx[i] = {r.s : r \in keep},
                !.ghm[i] = {}, !.ghq[i] = {}, !.cause[i] = {},
-               \* shard.DropMeasurement flushes the shard: nothing of the policy is left in the log only
-               !.wal = [j \in Insts |-> IF RpOf(j) = RpOf(i) THEN {} ELSE w.wal[j]],
+               \* shard.DropMeasurement flushes the whole shard: nothing of the policy is left in the log only
+               !.wal = [j \in Insts |-> IF flushNow /\ RpOf(j) = RpOf(i) THEN {} ELSE w.wal[j]],
+               !.zomb[i] = {},
+               !.zmem = [j \in Insts |-> IF j = i \/ (flushNow /\ RpOf(j) = RpOf(i)) THEN {} ELSE w.zmem[j]],
                !.dead[i] = IF "dead_index_listed" \in dv THEN @ \cup {[ver |-> w.ver[i], s |-> s] : s \in w.idx[i]} ELSE @,
                !.nidx[RpOf(i)] = IF NameOf(i) = "n" /\ @ = "yes" THEN "maybe" ELSE @]
 
@@ -221,6 +347,10 @@ WDropRP(w, rp) ==
             !.wal  = [j \in Insts |-> IF RpOf(j) = rp THEN {} ELSE w.wal[j]],
             !.dead = [j \in Insts |-> IF RpOf(j) = rp THEN {} ELSE w.dead[j]],
             !.cause = [j \in Insts |-> IF RpOf(j) = rp THEN {} ELSE w.cause[j]],
+            !.zomb = [j \in Insts |-> IF RpOf(j) = rp THEN {} ELSE w.zomb[j]],
+            !.zmem = [j \in Insts |-> IF RpOf(j) = rp THEN {} ELSE w.zmem[j]],
+            !.mph  = [j \in Insts |-> IF RpOf(j) = rp THEN "none" ELSE w.mph[j]],
+            !.ig[rp] = {}, !.wired[rp] = {}, !.delidx[rp] = FALSE, !.ackc[rp] = FALSE,
             !.nidx[rp] = "no"]
 
 WCreateRP(w, rp) == [w EXCEPT !.rps = @ \cup {rp}]
@@ -228,7 +358,9 @@ WCreateRP(w, rp) == [w EXCEPT !.rps = @ \cup {rp}]
 WDropDatabase(w) ==
   [w EXCEPT !.db = FALSE, !.rps = {}, !.ex = [j \in Insts |-> FALSE], !.ver = [j \in Insts |-> -1],
             !.rows = NoRows, !.idx = NoRows, !.ghm = NoRows, !.ghq = NoRows,
-            !.wal = NoRows, !.dead = NoRows, !.cause = NoRows,
+            !.wal = NoRows, !.dead = NoRows, !.cause = NoRows, !.zomb = NoRows, !.zmem = NoRows,
+            !.mph = NoPhase, !.rpph = [r \in RPs |-> "none"], !.ackc = [r \in RPs |-> FALSE],
+            !.ig = [r \in RPs |-> {}], !.wired = [r \in RPs |-> {}], !.delidx = [r \in RPs |-> FALSE],
             !.nidx = [r \in RPs |-> "no"]]
 
 WCreateDatabase(w) == [w EXCEPT !.db = TRUE, !.rps = RPs]
@@ -237,11 +369,11 @@ WCreateDatabase(w) == [w EXCEPT !.db = TRUE, !.rps = RPs]
 WCompact(w) == [w EXCEPT !.ghq = [j \in Insts |-> w.ghq[j] \cup w.ghm[j]], !.ghm = NoRows]
 
 \* a flush empties the memtable: nothing is left in the write-ahead log only
-WFlush(w) == [w EXCEPT !.wal = NoRows]
+WFlush(w) == [w EXCEPT !.wal = NoRows, !.zmem = NoRows]
 
 \* as implemented: the rows of a series dropped while they were still in the write-ahead log are replayed by the
 \* next start and come back (as rows of a new series)
-WRestartImpl(w, dv) ==
+WRestartWal(w, dv) ==
   IF "wal_replay_resurrects" \in dv
     THEN [w EXCEPT !.rows = [j \in Insts |-> w.rows[j] \cup w.wal[j]],
                    !.idx  = [j \in Insts |-> w.idx[j] \cup {r.s : r \in w.wal[j]}],
@@ -250,13 +382,42 @@ WRestartImpl(w, dv) ==
                    !.cause = [j \in Insts |-> IF w.wal[j] # {} THEN w.cause[j] \cup {"wal"} ELSE w.cause[j]],
                    !.wal  = NoRows]
     ELSE w
+\* as implemented: a start hands the deleted set to every index group on disk (OpenIndexes): the rows of the series
+\* ids of the deleted set that were still readable disappear now - except those that were only in the write-ahead
+\* log, which the replay writes to a NEW series of the same key
+WRestartIdx(w, dv) ==
+  IF "late_index_unwired" \in dv
+    THEN LET doomed(j) == {r \in w.rows[j] : SX(r) \in w.zomb[j]} \ w.zmem[j]
+             left(j)   == w.rows[j] \ doomed(j)
+         IN [w EXCEPT !.rows = [j \in Insts |-> left(j)],
+                      !.idx  = [j \in Insts |-> {s \in w.idx[j] : \E r \in left(j) : r.s = s}],
+                      !.zomb = NoRows, !.zmem = NoRows,
+                      !.wired = w.ig, !.delidx = [r \in RPs |-> w.ig[r] # {}]]
+    ELSE w
+WRestartImpl(w, dv) == WRestartIdx(WRestartWal(w, dv), dv)
 
 \* mutation seed: a restart resurrects the series dropped by DROP SERIES
 WRestart(w, dv, dr) ==
   IF "restart_resurrects" \in dv
     THEN [w EXCEPT !.rows = [j \in Insts |-> w.rows[j] \cup {d.r : d \in {x \in dr : x.i = j /\ x.how = "series" /\ x.g = w.gen[j] /\ w.ex[j]}}],
                    !.idx  = [j \in Insts |-> w.idx[j]  \cup {d.r.s : d \in {x \in dr : x.i = j /\ x.how = "series" /\ x.g = w.gen[j] /\ w.ex[j]}}]]
-    ELSE w
+    ELSE WRestartIdx(w, dv)
+
+\* drop_series_volatile: DROP SERIES is acknowledged when its series ids are in the memory of the deleted-set table
+\* (MergeSetIndex.WriteDeleteTsids -> Table.AddItems); the table writes them out within the next second or two.  A kill
+\* before that loses the record: everything the statement removed is back after the start.
+Snap(w) == [on |-> TRUE, rows |-> w.rows, idx |-> w.idx, ghm |-> w.ghm, ghq |-> w.ghq, zomb |-> w.zomb, cause |-> w.cause,
+            dead |-> w.dead]
+NP(w) == [w EXCEPT !.pre = NoPre]
+Volatile(w0, w1, dv) == IF "drop_series_volatile" \in dv THEN [w1 EXCEPT !.pre = Snap(w0)] ELSE NP(w1)
+UndoLast(w, dv) ==
+  IF "drop_series_volatile" \in dv /\ w.pre.on
+    THEN [w EXCEPT !.rows = w.pre.rows, !.idx = w.pre.idx, !.ghm = w.pre.ghm, !.ghq = w.pre.ghq, !.zomb = w.pre.zomb,
+                   !.dead = w.pre.dead,
+                   !.cause = [j \in Insts |-> IF w.pre.rows[j] # w.rows[j] \/ w.pre.idx[j] # w.idx[j]
+                                                 THEN w.pre.cause[j] \cup {"volatile"} ELSE w.pre.cause[j]],
+                   !.pre = NoPre]
+    ELSE NP(w)
 
 -----------------------------------------------------------------------------
 \* layers of the design world
@@ -291,21 +452,27 @@ ShapesOf(R, k) ==
    ff |-> RowsJ(FieldFilter(R, k)),
    gtag |-> FunJ(GroupByTag(R), TVJ), gtime |-> SetToSeq({[b |-> b, c |-> GroupByTime(R)[b]] : b \in DOMAIN GroupByTime(R)}),
    cnt |-> Count(R), sum |-> SumV(R), cntg |-> FunJ(CountBy(R), Id), sumg |-> FunJ(SumBy(R), Id),
-   cntre |-> Count(TagRe(R))]
+   cntre |-> Count(TagRe(R)),
+   last |-> RowsJ(NewestOfProbe(R)), lim |-> RowsJ(SecondOfProbe(R)), slim |-> RowsJ(FirstSeries(R)),
+   fill0 |-> SetToSeq(FillZero(R)), fillp |-> SetToSeq(FillPrevious(R)),
+   subcnt |-> SubCount(R), submax |-> FunJ(SubMaxBy(R), Id)]
 
-ListingOf(S) == [series |-> SerJ(ShowSeries(S)), tkeys |-> SetToSeq(ShowTagKeys(S)),
-                 thost |-> SetToSeq(ShowTagValues(S, "host")), tregion |-> SetToSeq(ShowTagValues(S, "region"))]
+ListingOf(S, e) == [series |-> SerJ(ShowSeries(S)), tkeys |-> SetToSeq(ShowTagKeys(S)),
+                    thost |-> SetToSeq(ShowTagValues(S, "host")), tregion |-> SetToSeq(ShowTagValues(S, "region")),
+                    scard |-> SeriesCardinality(S), fkeys |-> SetToSeq(ShowFieldKeys(e))]
 
 \* design expectation after an action (world w): per measurement instance every selection shape over its live
-\* rows and every listing over its live series
+\* rows and every listing over its live series; the measurements of the database
 ExpOf(w, k) == [k |-> k,
-                inst |-> [i \in Insts |-> [sel |-> ShapesOf(Live(w, i), k), list |-> ListingOf(LiveIdx(w, i))]]]
+                inst |-> [i \in Insts |-> [sel |-> ShapesOf(Live(w, i), k), list |-> ListingOf(LiveIdx(w, i), Exists(w, i))]],
+                meas |-> SetToSeq(ShowMeasurements(w))]
 
 \* what the as-implemented world predicts: live rows and series, rows of deleted series still on disk (must /
 \* maybe), whether scans by measurement name skip the deleted set (entries of "n" follow those of "m"), the
 \* version suffix (listings and DROP SERIES reach every policy holding the same versioned name)
 NameScanLeak(w, i) == IF "name_scan_leak" \in ImplDev /\ NameOf(i) = "m" /\ Usable(w, i) THEN w.nidx[RpOf(i)] ELSE "no"
 Flag(d) == IF d \in ImplDev THEN "yes" ELSE "no"
+YN(b) == IF b THEN "yes" ELSE "no"
 ImpOf(w) == [inst |-> [i \in Insts |-> [live |-> RowsJ(Live(w, i)),
                                          ser  |-> SerJ(LiveIdx(w, i)),
                                          ex   |-> IF Usable(w, i) /\ w.ex[i] THEN "yes" ELSE "no",
@@ -316,8 +483,12 @@ ImpOf(w) == [inst |-> [i \in Insts |-> [live |-> RowsJ(Live(w, i)),
                                          gm |-> RowsJ(IF Usable(w, i) /\ w.ex[i] THEN w.ghm[i] ELSE {}),
                                          gq |-> RowsJ(IF Usable(w, i) /\ w.ex[i] THEN w.ghq[i] ELSE {}),
                                          scan |-> NameScanLeak(w, i)]],
+             rp |-> [r \in RPs |-> [ackc |-> YN(w.ackc[r]), ph |-> w.rpph[r],
+                                    ig |-> SetToSeq(w.ig[r]), wired |-> SetToSeq(w.wired[r])]],
+             dbph |-> w.dbph,
              flags |-> [resuf |-> Flag("or_suffix_leak"), schema |-> Flag("tagkeys_from_schema"),
-                        listrp |-> Flag("listing_ignores_rp")]]
+                        listrp |-> Flag("listing_ignores_rp"), slimit |-> Flag("slimit_ignored"),
+                        timedrop |-> Flag("drop_series_time_ignored"), busyack |-> Flag("create_busy_acked")]]
 
 LayersJ == [i \in Insts |-> [mem |-> Cardinality(loc'[i].mem), fl |-> Cardinality(loc'[i].fl),
                              oo |-> Cardinality(loc'[i].oo), co |-> Cardinality(loc'[i].co)]]
@@ -341,7 +512,7 @@ Global(a) == /\ (FreeGlobals \/ (gk < Len(Skeleton) /\ Skeleton[gk + 1] = a))
 \* rows a drop names, by the design rule (independent of Dev)
 NamedSeries(i, p) == {r \in wd.rows[i] : Sat(p, r.s)}
 Tag(i, R, how) == {[i |-> i, g |-> r.g, r |-> r, how |-> how] : r \in R}
-\* rows of earlier generations of i (for the mutation seed recreate_reuses_version)
+\* rows of earlier generations of i (for the mutation seeds recreate_reuses_version / reuse_version_after_finish)
 OldRows(i) == {d.r : d \in {x \in dropped : x.i = i /\ x.how = "measurement"}}
 
 \* (overwriting a live row is the subject of C02: here a write never hits the key of a LIVE row; the key of a
@@ -350,17 +521,27 @@ Occupied(i) == {<<r.s, r.t>> : r \in wd.rows[i] \cup wi.rows[i]}
 Write(i, keys) ==
   /\ Usable(wd, i) /\ nw < MaxWrites /\ Local
   /\ keys \cap Occupied(i) = {}
-  /\ wd' = WWrite(wd, i, keys, nv, Dev, OldRows(i))
-  /\ wi' = WWrite(wi, i, keys, nv, {}, {})
+  /\ wd' = NP(WWrite(wd, i, keys, nv, Dev, OldRows(i)))
+  /\ wi' = NP(WWrite(wi, i, keys, nv, ImplDev \cap {"late_index_unwired"}, {}))
   /\ loc' = LocAfter(wd')
   /\ nv' = nv + Cardinality(keys) /\ nw' = nw + 1
   /\ UNCHANGED dropped
   /\ Log("Write", [i |-> i, rows |-> RowsJ({r \in wi'.rows[i] : r.v >= nv})])
 
+\* a write to a measurement whose database or retention policy is gone (or being deleted): refused, nothing changes
+RefusedRows(i, keys) == LET ks == SetToSeq(keys)
+                        IN {RowOf(ks[j][1], ks[j][2], nv + j - 1, 0) : j \in 1..Len(ks)}
+WriteRefused(i, keys) ==
+  /\ ~Usable(wd, i) /\ Local
+  /\ nv' = nv + Cardinality(keys)
+  /\ wd' = NP(wd) /\ wi' = NP(wi)
+  /\ UNCHANGED <<loc, dropped, nw>>
+  /\ Log("WriteRefused", [i |-> i, rows |-> RowsJ(RefusedRows(i, keys))])
+
 DropSeries(i, p) ==
   /\ Usable(wd, i) /\ wd.ex[i] /\ Usable(wi, i) /\ wi.ex[i] /\ Local
-  /\ wd' = WDropSeries(wd, i, p, Dev, MemRows)
-  /\ wi' = WDropSeries(wi, i, p, ImplDev, MemRows)
+  /\ wd' = Volatile(wd, WDropSeries(wd, i, p, Dev, MemRows, ""), Dev)
+  /\ wi' = Volatile(wi, WDropSeries(wi, i, p, ImplDev, MemRows, ""), ImplDev)
   /\ loc' = LocAfter(wd')
   /\ dropped' = dropped \cup Tag(i, NamedSeries(i, p), "series")
   /\ UNCHANGED <<nv, nw>>
@@ -369,14 +550,35 @@ DropSeries(i, p) ==
 \* DROP SERIES WHERE ... without FROM is rejected by the executor: not acknowledged, nothing changes
 DropSeriesNoFrom(p) ==
   /\ wd.db /\ Local
-  /\ UNCHANGED <<wd, wi, loc, dropped, nv, nw>>
+  /\ wd' = NP(wd) /\ wi' = NP(wi)
+  /\ UNCHANGED <<loc, dropped, nv, nw>>
   /\ Log("DropSeriesNoFrom", [p |-> PredJ(p)])
 
+\* DROP SERIES FROM i WHERE <p> AND time <op> <t>: there is no time-bounded DROP SERIES (InfluxQL: "DROP SERIES doesn't
+\* support time in WHERE clause"); the design refuses the statement and nothing changes.  As implemented
+\* (drop_series_time_ignored) it is acknowledged and the time condition is ignored: the whole series go.
+DropSeriesTime(i, p, op, t) ==
+  /\ Usable(wd, i) /\ wd.ex[i] /\ Usable(wi, i) /\ wi.ex[i] /\ Local
+  /\ wd' = IF "drop_series_time_ignored" \in Dev THEN Volatile(wd, WDropSeries(wd, i, p, Dev, MemRows, ""), Dev) ELSE NP(wd)
+  /\ wi' = IF "drop_series_time_ignored" \in ImplDev THEN Volatile(wi, WDropSeries(wi, i, p, ImplDev, MemRows, "timedrop"), ImplDev)
+                                                       ELSE NP(wi)
+  /\ loc' = LocAfter(wd')
+  /\ UNCHANGED <<dropped, nv, nw>>
+  /\ Log("DropSeriesTime", [i |-> i, p |-> PredJ(p), op |-> op, t |-> t])
+
+\* DELETE FROM i WHERE ... and DROP SHARD n are answered "unsupported command": nothing changes
+Unsupported(what, i) ==
+  /\ wd.db /\ Local
+  /\ wd' = NP(wd) /\ wi' = NP(wi)
+  /\ UNCHANGED <<loc, dropped, nv, nw>>
+  /\ Log("Unsupported", [what |-> what, i |-> i])
+
+\* ---- wholesale drops, in one step (Phased = FALSE) ------------------------------------------------------------
 \* shard.DropMeasurement flushes the whole shard first: the other measurements of the policy lose their memtable
 DropMeasurement(i) ==
-  /\ Usable(wd, i) /\ wd.ex[i] /\ Local
-  /\ wd' = WDropMeasurement(wd, i, Dev, MemRows)
-  /\ wi' = WDropMeasurement(wi, i, ImplDev, NoRows)
+  /\ ~Phased /\ Usable(wd, i) /\ wd.ex[i] /\ Local
+  /\ wd' = NP(WDropMeasurement(wd, i, Dev, MemRows, TRUE))
+  /\ wi' = NP(WDropMeasurement(wi, i, ImplDev, NoRows, TRUE))
   /\ loc' = LET fl == FlushLoc(InstsOfRp(RpOf(i)) \ {i})
             IN [j \in Insts |-> IF j = i THEN Without(loc[j], AllLoc(j) \ wd'.rows[j]) ELSE fl[j]]
   /\ dropped' = dropped \cup Tag(i, wd.rows[i], "measurement")
@@ -384,52 +586,157 @@ DropMeasurement(i) ==
   /\ Log("DropMeasurement", [i |-> i])
 
 DropRP(rp) ==
-  /\ wd.db /\ rp \in wd.rps /\ Local
-  /\ wd' = WDropRP(wd, rp) /\ wi' = WDropRP(wi, rp)
+  /\ ~Phased /\ wd.db /\ rp \in wd.rps /\ Local
+  /\ wd' = NP(WDropRP(wd, rp)) /\ wi' = NP(WDropRP(wi, rp))
   /\ loc' = LocAfter(wd')
   /\ dropped' = dropped \cup UNION {Tag(i, wd.rows[i], "rp") : i \in InstsOfRp(rp)}
   /\ UNCHANGED <<nv, nw>>
   /\ Log("DropRP", [rp |-> rp])
 
 CreateRP(rp) ==
-  /\ wd.db /\ rp \notin wd.rps /\ Local
-  /\ wd' = WCreateRP(wd, rp) /\ wi' = WCreateRP(wi, rp)
+  /\ wd.db /\ rp \notin wd.rps /\ wd.rpph[rp] = "none" /\ Local
+  /\ wd' = NP(WCreateRP(wd, rp)) /\ wi' = NP(WCreateRP(wi, rp))
   /\ UNCHANGED <<loc, dropped, nv, nw>>
   /\ Log("CreateRP", [rp |-> rp])
 
 DropDatabase ==
-  /\ wd.db /\ Local
-  /\ wd' = WDropDatabase(wd) /\ wi' = WDropDatabase(wi)
+  /\ ~Phased /\ wd.db /\ Local
+  /\ wd' = NP(WDropDatabase(wd)) /\ wi' = NP(WDropDatabase(wi))
   /\ loc' = LocAfter(wd')
   /\ dropped' = dropped \cup UNION {Tag(i, wd.rows[i], "database") : i \in Insts}
   /\ UNCHANGED <<nv, nw>>
   /\ Log("DropDatabase", <<>>)
 
 CreateDatabase ==
-  /\ ~wd.db /\ Local
-  /\ wd' = WCreateDatabase(wd) /\ wi' = WCreateDatabase(wi)
+  /\ ~wd.db /\ wd.dbph = "none" /\ Local
+  /\ wd' = NP(WCreateDatabase(wd)) /\ wi' = NP(WCreateDatabase(wi))
   /\ UNCHANGED <<loc, dropped, nv, nw>>
   /\ Log("CreateDatabase", <<>>)
 
+\* ---- wholesale drops, in the three steps of the code (Phased = TRUE) ----------------------------------------
+\* race = rows of writes that are in flight while the statement runs: whether they land before the mark (and are
+\* dropped) or after it (and are refused), none of them may be readable afterwards
+RaceRows(i, keys) == LET ks == SetToSeq(keys)
+                     IN {RowOf(ks[j][1], ks[j][2], nv + j - 1, 0) : j \in 1..Len(ks)}
+RaceJ(i, keys) == [i |-> i, rows |-> RowsJ(RaceRows(i, keys))]
+
+DropRPMark(rp, ri, rkeys) ==
+  /\ Phased /\ wd.db /\ rp \in wd.rps /\ Local
+  /\ RpOf(ri) = rp
+  /\ wd' = NP([WDropRP(wd, rp) EXCEPT !.rpph[rp] = "marked"])
+  /\ wi' = NP([WDropRP(wi, rp) EXCEPT !.rpph[rp] = "marked"])
+  /\ loc' = LocAfter(wd')
+  /\ dropped' = dropped \cup UNION {Tag(i, wd.rows[i], "rp") : i \in InstsOfRp(rp)}
+  /\ nv' = nv + Cardinality(rkeys) /\ UNCHANGED nw
+  /\ Log("DropRPMark", [rp |-> rp, race |-> RaceJ(ri, rkeys)])
+
+DropRPStore(rp) ==
+  /\ Phased /\ wd.rpph[rp] = "marked" /\ Local
+  /\ wd' = NP([wd EXCEPT !.rpph[rp] = "purged"]) /\ wi' = NP([wi EXCEPT !.rpph[rp] = "purged"])
+  /\ UNCHANGED <<loc, dropped, nv, nw>>
+  /\ Log("DropRPStore", [rp |-> rp])
+
+DropRPFinish(rp) ==
+  /\ Phased /\ wd.rpph[rp] = "purged" /\ Local
+  \* as implemented (create_busy_acked) the acknowledged CREATE was answered from the entry that is removed now
+  /\ wd' = NP([wd EXCEPT !.rpph[rp] = "none"]) /\ wi' = NP([wi EXCEPT !.rpph[rp] = "none"])
+  /\ UNCHANGED <<loc, dropped, nv, nw>>
+  /\ Log("DropRPFinish", [rp |-> rp])
+
+\* CREATE RETENTION POLICY while the name is still taken by the policy being deleted: refused, nothing changes.
+\* As implemented (create_busy_acked) the statement is acknowledged - Data.CheckCanCreateRetentionPolicy finds the
+\* mark-deleted entry, sees equal parameters and reports "exists" - and the policy disappears a moment later.
+CreateRPBusy(rp) ==
+  /\ Phased /\ wd.db /\ rp \notin wd.rps /\ wd.rpph[rp] # "none" /\ Local
+  /\ wd' = NP(IF "create_busy_acked" \in Dev THEN [wd EXCEPT !.ackc[rp] = TRUE] ELSE wd)
+  /\ wi' = NP(IF "create_busy_acked" \in ImplDev THEN [wi EXCEPT !.ackc[rp] = TRUE] ELSE wi)
+  /\ UNCHANGED <<loc, dropped, nv, nw>>
+  /\ Log("CreateRPBusy", [rp |-> rp])
+
+DropDatabaseMark(ri, rkeys) ==
+  /\ Phased /\ wd.db /\ Local
+  /\ wd' = NP([WDropDatabase(wd) EXCEPT !.dbph = "marked"])
+  /\ wi' = NP([WDropDatabase(wi) EXCEPT !.dbph = "marked"])
+  /\ loc' = LocAfter(wd')
+  /\ dropped' = dropped \cup UNION {Tag(i, wd.rows[i], "database") : i \in Insts}
+  /\ nv' = nv + Cardinality(rkeys) /\ UNCHANGED nw
+  /\ Log("DropDatabaseMark", [race |-> RaceJ(ri, rkeys)])
+
+DropDatabaseStore ==
+  /\ Phased /\ wd.dbph = "marked" /\ Local
+  /\ wd' = NP([wd EXCEPT !.dbph = "purged"]) /\ wi' = NP([wi EXCEPT !.dbph = "purged"])
+  /\ UNCHANGED <<loc, dropped, nv, nw>>
+  /\ Log("DropDatabaseStore", <<>>)
+
+DropDatabaseFinish ==
+  /\ Phased /\ wd.dbph = "purged" /\ Local
+  /\ wd' = NP([wd EXCEPT !.dbph = "none"]) /\ wi' = NP([wi EXCEPT !.dbph = "none"])
+  /\ UNCHANGED <<loc, dropped, nv, nw>>
+  /\ Log("DropDatabaseFinish", <<>>)
+
+\* CREATE DATABASE while the database of that name is being deleted: refused ("is being delete"), nothing changes
+CreateDatabaseBusy ==
+  /\ Phased /\ ~wd.db /\ wd.dbph # "none" /\ Local
+  /\ wd' = NP(wd) /\ wi' = NP(wi)
+  /\ UNCHANGED <<loc, dropped, nv, nw>>
+  /\ Log("CreateDatabaseBusy", <<>>)
+
+\* DROP MEASUREMENT: the statement marks the catalogue entry; a write may re-create the measurement (under a new
+\* version) while the stores still delete the files of the old version and before the old entry is removed
+DropMeasurementMark(i) ==
+  /\ Phased /\ Usable(wd, i) /\ wd.ex[i] /\ wd.mph[i] = "none" /\ Local
+  /\ wd' = NP([WDropMeasurement(wd, i, Dev, MemRows, FALSE) EXCEPT !.mph[i] = "marked"])
+  /\ wi' = NP([WDropMeasurement(wi, i, ImplDev, NoRows, FALSE) EXCEPT !.mph[i] = "marked"])
+  /\ loc' = LocAfter(wd')
+  /\ dropped' = dropped \cup Tag(i, wd.rows[i], "measurement")
+  /\ UNCHANGED <<nv, nw>>
+  /\ Log("DropMeasurementMark", [i |-> i])
+
+\* the stores flush the shards of the policy and delete the files of the OLD version
+\* mutation seed store_purges_recreated: the files of the measurement re-created meanwhile go too
+StorePurge(w, i, dv) ==
+  LET w1 == [w EXCEPT !.mph[i] = "purged",
+                      !.wal = [j \in Insts |-> IF RpOf(j) = RpOf(i) THEN {} ELSE w.wal[j]],
+                      !.zmem = [j \in Insts |-> IF RpOf(j) = RpOf(i) THEN {} ELSE w.zmem[j]]]
+  IN IF "store_purges_recreated" \in dv /\ w.ex[i] THEN [w1 EXCEPT !.rows[i] = {}, !.idx[i] = {}] ELSE w1
+DropMeasurementStore(i) ==
+  /\ Phased /\ wd.mph[i] = "marked" /\ Local
+  /\ wd' = NP(StorePurge(wd, i, Dev)) /\ wi' = NP(StorePurge(wi, i, {}))
+  /\ loc' = LET fl == FlushLoc(InstsOfRp(RpOf(i)))
+            IN [j \in Insts |-> Without(fl[j], (fl[j].mem \cup fl[j].fl \cup fl[j].oo \cup fl[j].co) \ wd'.rows[j])]
+  /\ UNCHANGED <<dropped, nv, nw>>
+  /\ Log("DropMeasurementStore", [i |-> i])
+
+DropMeasurementFinish(i) ==
+  /\ Phased /\ wd.mph[i] = "purged" /\ Local
+  /\ wd' = NP([wd EXCEPT !.mph[i] = "none"]) /\ wi' = NP([wi EXCEPT !.mph[i] = "none"])
+  /\ UNCHANGED <<loc, dropped, nv, nw>>
+  /\ Log("DropMeasurementFinish", [i |-> i])
+
+\* ---- global actions --------------------------------------------------------------------------------------------
 Flush ==
   /\ Global("Flush")
   /\ loc' = FlushLoc(Insts)
-  /\ wi' = WFlush(wi)
-  /\ UNCHANGED <<wd, dropped, nv, nw>>
+  /\ wi' = NP(WFlush(wi))
+  /\ wd' = NP(wd)
+  /\ UNCHANGED <<dropped, nv, nw>>
   /\ Log("Flush", <<>>)
 
 Compact ==
   /\ Global("Compact")
   /\ loc' = CompactLoc
-  /\ wi' = WCompact(wi)
-  /\ UNCHANGED <<wd, dropped, nv, nw>>
+  /\ wi' = NP(WCompact(wi))
+  /\ wd' = NP(wd)
+  /\ UNCHANGED <<dropped, nv, nw>>
   /\ Log("Compact", <<>>)
 
-\* neither kind of restart flushes: the memtable comes back from the write-ahead log
+\* neither kind of restart flushes: the memtable comes back from the write-ahead log; a background deletion that
+\* was under way goes on after the start (the phases are untouched)
 Restart(kind) ==
   /\ Global(kind)
-  /\ wd' = WRestart(wd, Dev, dropped)
-  /\ wi' = WRestartImpl(wi, ImplDev)
+  \* a kill loses the record of a DROP SERIES acknowledged immediately before it (as implemented); a clean stop writes it out
+  /\ wd' = WRestart(IF kind = "RestartKill" THEN UndoLast(wd, Dev) ELSE NP(wd), Dev, dropped)
+  /\ wi' = WRestartImpl(IF kind = "RestartKill" THEN UndoLast(wi, ImplDev) ELSE NP(wi), ImplDev)
   /\ loc' = LocAfter(wd')
   /\ UNCHANGED <<dropped, nv, nw>>
   /\ Log(kind, <<>>)
@@ -443,17 +750,31 @@ InstChoices  == Insts
 RpChoices    == RPs
 Rare         == TRUE      \* simulation: the wholesale drops are offered less often
 RareDb       == TRUE
+TimeDropChoices   == {}   \* <<inst, pred, op, t>>
+UnsupportedChoices== {}   \* <<what, inst>>
+RefusedChoices    == {}   \* <<inst, keys>>
+RaceChoices(rp)   == {<<CHOOSE i \in InstsOfRp(rp) : TRUE, {}>>}      \* <<inst of rp, keys in flight>>
+DbRaceChoices     == {<<"rp1.m", {}>>}
 
 Next ==
   /\ Len(hist) < Depth
   /\ \/ \E c \in WriteChoices : Write(c[1], c[2])
      \/ \E c \in DropChoices : DropSeries(c[1], c[2])
      \/ \E p \in NoFromChoices : DropSeriesNoFrom(p)
+     \/ \E c \in TimeDropChoices : DropSeriesTime(c[1], c[2], c[3], c[4])
+     \/ \E c \in UnsupportedChoices : Unsupported(c[1], c[2])
+     \/ \E c \in RefusedChoices : WriteRefused(c[1], c[2])
      \/ \E i \in InstChoices : DropMeasurement(i)
      \/ (Rare /\ \E rp \in RpChoices : DropRP(rp))
      \/ \E rp \in RPs : CreateRP(rp)
      \/ (RareDb /\ DropDatabase)
      \/ CreateDatabase
+     \/ \E i \in InstChoices : DropMeasurementMark(i)
+     \/ \E i \in Insts : DropMeasurementStore(i) \/ DropMeasurementFinish(i)
+     \/ (Rare /\ \E rp \in RpChoices : \E c \in RaceChoices(rp) : DropRPMark(rp, c[1], c[2]))
+     \/ \E rp \in RPs : DropRPStore(rp) \/ DropRPFinish(rp) \/ CreateRPBusy(rp)
+     \/ (RareDb /\ \E c \in DbRaceChoices : DropDatabaseMark(c[1], c[2]))
+     \/ DropDatabaseStore \/ DropDatabaseFinish \/ CreateDatabaseBusy
      \/ Flush
      \/ Compact
      \/ Restart("RestartClean")
@@ -466,6 +787,8 @@ Spec == Init /\ [][Next]_vars
 TypeOK == /\ \A i \in Insts : wd.rows[i] \subseteq [s : Series, t : Times, v : 1..(nv - 1), g : 1..wd.gen[i]]
           /\ \A i \in Insts : wd.idx[i] \subseteq Series
           /\ \A i \in Insts : \A r1, r2 \in wd.rows[i] : (r1.s = r2.s /\ r1.t = r2.t) => r1 = r2
+          /\ \A r \in RPs : wd.wired[r] \subseteq wd.ig[r] /\ wd.ig[r] \subseteq IdxIds
+          /\ wd.dbph \in {"none", "marked", "purged"}
 
 \* the layers partition the rows
 LayersOK == \A i \in Insts :
@@ -486,6 +809,13 @@ DroppedStaysGone ==
 \* rows of a re-created measurement all belong to its current generation
 FreshAfterRecreate == \A i \in Insts : \A r \in Live(wd, i) : r.g = wd.gen[i]
 
+\* the deleted-series set reaches every index group of its policy: no series id is in the set while its index
+\* group does not consult it
+DeletedSetEverywhere == \A r \in RPs : wd.wired[r] = wd.ig[r]
+
+\* an acknowledged CREATE RETENTION POLICY holds: the policy exists (until a later drop)
+AckedCreateHolds == \A r \in RPs : wd.ackc[r] => (wd.db /\ r \in wd.rps)
+
 \* OthersUntouched (action property): rows the action did not name are unchanged
 Named(i, r) == \E d \in dropped' \ dropped : d.i = i /\ d.r = r
 OthersUntouchedStep ==
@@ -493,6 +823,13 @@ OthersUntouchedStep ==
       (r \notin wd'.rows[i]) => (Named(i, r) \/ \E r2 \in wd'.rows[i] : r2.s = r.s /\ r2.t = r.t /\ r2.v > r.v)
 OthersUntouched == [][OthersUntouchedStep]_vars
 
+\* WritesLand (action property): every row of an acknowledged write is readable afterwards - also when its
+\* series key was dropped before (a fresh series) and when its measurement is being deleted (a fresh measurement)
+WritesLandStep ==
+  (nw' = nw + 1) => \A v \in nv..(nv' - 1) : \E i \in Insts : \E r \in Live(wd', i) : r.v = v
+WritesLand == [][WritesLandStep]_vars
+
 \* the as-implemented world keeps the same catalogue as the design
-ImplCatalogue == wi.db = wd.db /\ wi.rps = wd.rps /\ wi.ex = wd.ex /\ wi.gen = wd.gen
+ImplCatalogue == /\ wi.db = wd.db /\ wi.rps = wd.rps /\ wi.ex = wd.ex /\ wi.gen = wd.gen
+                 /\ wi.dbph = wd.dbph /\ wi.rpph = wd.rpph /\ wi.mph = wd.mph
 =============================================================================
